@@ -492,4 +492,7 @@ def run(tier):
     clause_b(rep, F)
     clause_d(rep, F)
     clause_f(rep, F)
+    # (e') the parser side of termination: no cycle of states without a consumed token (E5)
+    from . import parserprogress
+    parserprogress.check(rep, F)
     return rep
